@@ -96,8 +96,10 @@ func vfc42HistOf(h uint64) (count, sum float64, buckets [][4]float64) {
 	return c1 + c2, float64((h>>16)%800000) / 8, [][4]float64{{0, 0.5, 1, c1}, {0, 1, 2, c2}}
 }
 
-func (w vfc42World) sid(tenant, query string, i int) uint64 {
-	return vfc42Mix(w.seed ^ vfc42StrHash(tenant)*0x9e3779b97f4a7c15 ^ vfc42StrHash(query)*0xd6e8feb86659fd93 ^ uint64(i+1)*0xa0761d6478bd642f)
+// class is the downsampling level a request may read (0: 1h data, 1: 5m data, 2: raw only): the downstream
+// holds different (downsampled) data per level, so the level is part of the identity of a series' samples.
+func (w vfc42World) sid(tenant, query string, i, class int) uint64 {
+	return vfc42Mix(uint64(2-class)*0x632be59bd9b4e019 ^ w.seed ^ vfc42StrHash(tenant)*0x9e3779b97f4a7c15 ^ vfc42StrHash(query)*0xd6e8feb86659fd93 ^ uint64(i+1)*0xa0761d6478bd642f)
 }
 
 func (w vfc42World) life(sid uint64, i int) (int64, int64) {
@@ -139,11 +141,11 @@ type vfc42Pt struct {
 }
 
 // eval is the direct answer: samples at start + k*step <= end, series without samples omitted.
-func (w vfc42World) eval(tenant, query string, start, end, step int64) map[string][]vfc42Pt {
+func (w vfc42World) eval(tenant, query string, class int, start, end, step int64) map[string][]vfc42Pt {
 	out := map[string][]vfc42Pt{}
 	for i := 0; i < w.nSeries; i++ {
-		sid := w.sid(tenant, query, i)
-		lo, hi := w.life(sid, i)
+		sid := w.sid(tenant, query, i, class)
+		lo, hi := w.life(w.sid(tenant, query, i, 2), i) // a series lives equally long at every level
 		var pts []vfc42Pt
 		for t := start; t <= end; t += step {
 			if p, ok := w.sample(sid, i, lo, hi, t); ok {
@@ -209,7 +211,21 @@ func (d *vfc42Down) RoundTrip(r *http.Request) (*http.Response, error) {
 	d.mu.Lock()
 	d.calls++
 	d.mu.Unlock()
-	res := d.w.eval(tenant, query, start, end, step)
+	// max_source_resolution as the querier reads it: "auto" = step/5, absent = raw
+	msr := int64(0)
+	switch v := r.Form.Get("max_source_resolution"); v {
+	case "":
+	case "auto":
+		msr = step / 5
+	default:
+		f, err := strconv.ParseFloat(v, 64)
+		if err != nil {
+			return fail("downstream got max_source_resolution=" + v)
+		}
+		msr = int64(math.Round(f * 1000))
+	}
+	class := vfc42Class(msr)
+	res := d.w.eval(tenant, query, class, start, end, step)
 	var b bytes.Buffer
 	b.WriteString(`{"status":"success","data":{"resultType":"matrix","result":[`)
 	first := true
@@ -252,7 +268,7 @@ func (d *vfc42Down) RoundTrip(r *http.Request) (*http.Response, error) {
 					fmt.Fprintf(&b, `[%d.%03d,"%s"]`, p.T/1000, p.T%1000, strconv.FormatFloat(p.V, 'f', -1, 64))
 					continue
 				}
-				sid := d.w.sid(tenant, query, i)
+				sid := d.w.sid(tenant, query, i, class)
 				cnt, sum, bk := vfc42HistOf(vfc42Mix(sid ^ uint64(p.T)*0x9e3779b97f4a7c15))
 				fmt.Fprintf(&b, `[%d.%03d,{"count":"%s","sum":"%s","buckets":[`, p.T/1000, p.T%1000, strconv.FormatFloat(cnt, 'f', -1, 64), strconv.FormatFloat(sum, 'f', -1, 64))
 				for j, k := range bk {
@@ -330,7 +346,18 @@ func (c *vfc42Cache) Fetch(_ context.Context, keys []string) (found []string, bu
 
 func (c *vfc42Cache) Stop() {}
 
+func vfc42Class(msr int64) int {
+	switch {
+	case msr >= 3600000:
+		return 0
+	case msr >= 300000:
+		return 1
+	}
+	return 2
+}
+
 type vfc42Query struct {
+	MSR    string `json:"max_source_resolution,omitempty"` // "" | "auto" | milliseconds
 	Tenant string `json:"tenant"`
 	Query  string `json:"query"`
 	Start  int64  `json:"start_ms"`
@@ -390,6 +417,7 @@ func vfc42Gen(rng *rand.Rand) vfc42Hist {
 		other = vfc42Steps[rng.Intn(len(vfc42Steps))]
 	}
 	nq := 1 + rng.Intn(8)
+	resolutions := rng.Intn(3) == 0 // this history also varies max_source_resolution (mostly "auto" = step/5)
 	tenants := []string{"t1"}
 	if rng.Intn(2) == 0 {
 		tenants = []string{"t1", "t2"}
@@ -401,6 +429,9 @@ func vfc42Gen(rng *rand.Rand) vfc42Hist {
 	maxPts := int64(40 + rng.Intn(260))
 	for k := 0; k < nq; k++ {
 		q := vfc42Query{Tenant: vfkit.Pick(rng, tenants), Query: vfkit.Pick(rng, queries)}
+		if resolutions {
+			q.MSR = vfkit.Pick(rng, []string{"auto", "auto", "auto", "", "600000", "7200000"})
+		}
 		q.Step = primary
 		switch mode {
 		case 2:
@@ -697,7 +728,7 @@ func TestVF_C42(t *testing.T) {
 	r.Rule("case = history of 1..8 range queries (1-2 tenants, 1-2 query strings, steps from {15s,1m,5m,1h}: one step / finer-then-coarser / two mixed; each query fresh or identical/shifted/adjacent/contained/superset/disjoint w.r.t. an earlier one; start==end sometimes; <=600 points) " +
 		"against a fresh real NewTripperware (results cache + split interval {1h,6h,24h} or dynamic split, align-range-with-step on 70%/off 30%, parallelism 1..4, cache backend = lossy in-memory cache (0/10/30% of accesses lose the entry) or the real FIFO cache with 1..4 items, optional snappy); " +
 		"each query fresh or identical/shifted/adjacent-before/after/contained/superset/disjoint/left-extension/right-extension/hole-fill w.r.t. earlier ones; " +
-		"downstream = pure function of (tenant, query, timestamp) with series that appear/disappear and 7-minute holes, all data in March 2021; in 3 of 4 histories each series is float, native-histogram-only or mixed (11-minute blocks) by a hash of (world, i), so histogram-only series sort first, in the middle or last; histogram samples (count, sum, buckets) are compared like float values; " +
+		"in 1 of 3 histories queries also carry max_source_resolution (mostly auto = step/5, else none/10m/2h) and the downstream serves different data per downsampling level (1h / 5m / raw) as a querier does; downstream = pure function of (tenant, query, level, timestamp) with series that appear/disappear and 7-minute holes, all data in March 2021; in 3 of 4 histories each series is float, native-histogram-only or mixed (11-minute blocks) by a hash of (world, i), so histogram-only series sort first, in the middle or last; histogram samples (count, sum, buckets) are compared like float values; " +
 		"requests are on the step grid unless align-range-with-step is on (then 1/3 are unaligned and the oracle is the direct answer for the step-aligned range, the documented behaviour of that option); " +
 		"oracle: response through the frontend == direct answer (series set, timestamps, values, exact); distinct = history; non-trivial = at least one cache hit happened in the history")
 	n := r.N(350, 7000)
@@ -733,6 +764,15 @@ func vfc42Run(r *vfkit.Run, c int, h vfc42Hist, codec *queryRangeCodec) {
 	for k, q := range h.Queries {
 		ctx, cancel := context.WithTimeout(user.InjectOrgID(context.Background(), q.Tenant), 5*time.Minute)
 		req := &ThanosQueryRangeRequest{Path: "/api/v1/query_range", Start: q.Start, End: q.End, Step: q.Step, Query: q.Query, Dedup: true, PartialResponse: true}
+		qmsr := int64(0)
+		switch q.MSR {
+		case "":
+		case "auto":
+			req.AutoDownsampling, qmsr = true, q.Step/5
+		default:
+			qmsr, _ = strconv.ParseInt(q.MSR, 10, 64)
+			req.MaxSourceResolution = qmsr
+		}
 		hr, err := codec.EncodeRequest(ctx, req)
 		if err != nil {
 			cancel()
@@ -746,7 +786,10 @@ func vfc42Run(r *vfkit.Run, c int, h vfc42Hist, codec *queryRangeCodec) {
 		if h.Align {
 			start, end = q.Start/q.Step*q.Step, q.End/q.Step*q.Step
 		}
-		want := down.w.eval(q.Tenant, q.Query, start, end, q.Step)
+		want := down.w.eval(q.Tenant, q.Query, vfc42Class(qmsr), start, end, q.Step)
+		if q.MSR != "" {
+			r.Count("queries_with_max_source_resolution", 1)
+		}
 		// class of the failing query: what earlier queries of this tenant/query string exist
 		class := "first-query"
 		for _, p := range h.Queries[:k] {
